@@ -386,7 +386,8 @@ def pf_transact(c):
         c.ob('PosInv-preserved', IMPLIES(snap1.held(a), Positions._posinv(lambda f: lift(snap1.field(f, a)))), kind='A')
     # the refinement of the contract object used by L2
     c.ob('contract-refined/held-qty-price', AND(IFF(snap1.held(a), tobool_(spec.held(a))), EQ(snap1.qty(a), spec.qty(a)),
-                                                 IMPLIES(snap1.held(a), EQ(snap1.field('current_price', a), spec.price(a)))), kind='A')
+                                                 IMPLIES(snap1.held(a), EQ(snap1.field('current_price', a), spec.price(a)))), kind='A',
+         props=['C02', 'C03', 'C04', 'C15'])         # (holdings side of the refinement; the cash side is the C01 clauses above)
     # C03 at portfolio level: a position that is (still) open reconciles to its own ledger
     if bool(snap1.held(a)) if c.mode == 'conc' else bool(SymBool(snap1.held(a))):
         pos = pf.pos_handler.positions[a]
